@@ -54,3 +54,10 @@ package connlimit
 //@   modifies external
 //@   ensures limit_is_429: istype(err, "*MaxConnError") ==> calls(w.WriteHeader) == 1 && callarg(w.WriteHeader, 0, 0) == 429 && calls(w.Write) == 1 && before(w.WriteHeader, w.Write)
 //@   ensures other_errors_delegated: !istype(err, "*MaxConnError") ==> calls(w.WriteHeader) == 0 && calls(DefaultHandler.ServeHTTP) == 1
+
+// Wrap rebinds the wrapped handler and nothing else: the connection accounting survives it.
+//@ func (*ConnLimiter).Wrap
+//@   props C04 C14 C20
+//@   requires cl != nil
+//@   modifies cl.next
+//@   ensures rebound: cl.next == h
